@@ -79,7 +79,7 @@ def run(ctx):
         cfgs = ["Conveyor_mc_2s.cfg", "Conveyor_progress_big.cfg"] if th else ["Conveyor_mc.cfg", "Conveyor_progress.cfg"]
         mcx = concurrent.futures.ThreadPoolExecutor(max_workers=2)
         mcs = [mcx.submit(ctx.tlc, "ConveyorMC", c, workers=6, timeout=3400 if th else 900, coverage=False) for c in cfgs]
-    scen = [("scripted", 0, 30)]
+    scen = [("scripted", 0, 30), ("agent-restart", 0, 46)]
     if th:
         scen += [("random", ctx.seed * 100 + k, 40) for k in range(7)]
     else:
